@@ -1,9 +1,11 @@
 (* C07 — robustly feasible float models are not reported infeasible.  PROOF-PARTIAL.
    Proved (bit-exact model, Magn): a witness value with margin step*(1+2^-50) + |v|*2^-50 inside the requested bound survives
    ONE try_set_min / try_set_max, whatever branch the setter takes (clamping, tolerance, quantisation).
+   Proved after the repair of FloatInterval::mid: every split at a point that passes the code's own test makes progress in
+   both children (bisect_progress); the stall of the unrepaired code is kept as bisect_stall_prefix_refuted.
    NOT proved (declared gap): the lift to a whole FloatLinLe / FloatLinEq pruning step (needs the closeness of the binary64
-   accumulation to its exact-rational reading), failure-freeness of the setters for such a witness, and termination of the
-   bisection -- which is in fact FALSE (bisect_stall_refuted).  The check's witness-constructed families carry that part. *)
+   accumulation to its exact-rational reading), failure-freeness of the setters for a robust witness, that the fall-back split
+   point passes the test.  The check's witness-constructed families carry that part. *)
 From Coq Require Import ZArith Bool Reals List Lia.
 Import ListNotations.
 From Flocq Require Import Core.Core IEEE754.BinarySingleNaN IEEE754.Binary IEEE754.Bits.
@@ -20,24 +22,63 @@ Proof. intros i v i' ev w M L1 L2. split; intros H Mg.
   - eapply witness_survives_set_max; eauto. - eapply witness_survives_set_min; eauto. Qed.
 Print Assumptions robust_witness_survives_partial.
 
-(* Refuted: termination of the bisection.  x in [0, 0.375], step 0.25, no constraint at all: not assigned, mid = 0.25, and the
-   left child `x <= 0.25` is bit-for-bit its parent with no event; the model of solve() runs out of every fuel without reaching
-   the right child (which is a solution).  The implementation descends until memory is exhausted (the time limit is not
-   checked while descending): through the public API, Model::with_float_precision(2); m.float(0.0, 0.015); m.solve(). *)
-Theorem bisect_stall_refuted :
-  (wf_b w_stall_iv = true /\ fall_assigned w_stall_store = false /\ ffirst_unassigned w_stall_store 0 = Some 0%nat /\
-   option_map (fun b => match b with VlF x => to_bits x | VlI z => z end) (var_mid (fget w_stall_store 0)) = Some 0x3fd0000000000000%Z /\
-   obs_ctx (fprune (mk_fleq (FVar 0) (FConst w_stall_mid)) (w_stall_store, [])) = obs_ctx (Some (w_stall_store, []))) /\
-  (forall n, (n <= 12)%nat -> let r := fsolve_first n 1000 [] w_stall_store in fs_sols r = [] /\ fs_stop r = StopFuel).
-Proof. split. exact bisect_stall_ok. exact bisect_stall_search. Qed.
-Print Assumptions bisect_stall_refuted.
+(* ---------------------------------------------------------------- bisect_progress (after the repair of FloatInterval::mid) *)
+(* Every split makes progress: a split point m that passes the test of the repaired FloatInterval::mid (more than step/2 away
+   from both bounds, decided by the f64 comparisons: fi_split_ok) makes BOTH children of the bisection tighten the pivot's
+   interval, inside Magn: the left child x <= m lowers max by more than 0.07*step and keeps min <= max, the right child x >= m
+   raises min by more than 0.07*step and keeps min <= max; both raise an event and neither fails.  The repaired mid returns
+   either such a point or (fall-back) the exact midpoint clamped into the interval.
+   NOT proved: that the fall-back point passes fi_split_ok as well (true in real arithmetic because an interval that is not
+   fixed is at least 1.5 steps wide; needs the rounding analysis of step_count's `round() as usize`); the check's families
+   funconstrained / fsearch_exact cover it (no stall in 30000 single-variable intervals of width 1..6 steps). *)
+Theorem bisect_progress : forall i m, magn_b i m = true -> fi_split_ok i m = true ->
+  (exists mx, tsmax_ff i m = Some (mkfi (imin i) mx (istep i), true) /\ B64Facts.fin mx /\
+     R_ (imin i) <= R_ mx /\ R_ mx < R_ (imax i) - 7/100 * R_ (istep i)) /\
+  (exists mn, tsmin_ff i m = Some (mkfi mn (imax i) (istep i), true) /\ B64Facts.fin mn /\
+     R_ (imin i) + 7/100 * R_ (istep i) < R_ mn /\ R_ mn <= R_ (imax i)).
+Proof. intros i m M S. split. apply split_left_progress; auto. apply split_right_progress; auto. Qed.
+Print Assumptions bisect_progress.
 
-(* Refuted: a strict comparison of a float variable with an INTEGER literal is lowered with the integer rule c+1:
-   x > 2 on x in [0, 2.5] (step 0.01) fails the space although x = 2.25 satisfies it with a margin of 25 steps. *)
-Theorem strict_int_literal_refuted :
+Theorem mid_is_split_point_or_exact : forall i m, fi_is_empty i = false -> fi_is_fixed i = false -> fi_mid i = Some m ->
+  fi_split_ok i m = true \/ fclamp (fi_rough_mid i) (imin i) (imax i) = Some m.
+Proof. exact fi_mid_split_ok_or_exact. Qed.
+Print Assumptions mid_is_split_point_or_exact.
+
+(* The stall of the code BEFORE the repair (fi_mid_prefix = the old mid), kept as a refutation of termination for that code:
+   x in [0, 0.375], step 0.25, no constraint: not assigned, old mid = 0.25 fails fi_split_ok, and the left child `x <= 0.25` is
+   bit-for-bit its parent with no event (the engine descended until memory was exhausted: Model::with_float_precision(2);
+   m.float(0.0, 0.015); m.solve()).  With the repaired mid (0.1875) the same store is solved: the model of solve() returns 0.0. *)
+Theorem bisect_stall_prefix_refuted :
+  (wf_b w_stall_iv = true /\ fall_assigned w_stall_store = false /\ ffirst_unassigned w_stall_store 0 = Some 0%nat /\
+   option_map to_bits (fi_mid_prefix w_stall_iv) = Some 0x3fd0000000000000%Z /\
+   fi_split_ok w_stall_iv (of_bits 0x3fd0000000000000) = false /\
+   obs_ctx (fprune (mk_fleq (FVar 0) (FConst w_stall_mid)) (w_stall_store, [])) = obs_ctx (Some (w_stall_store, []))) /\
+  (option_map to_bits (fi_mid w_stall_iv) = Some 0x3fc8000000000000%Z /\
+   fi_split_ok w_stall_iv (of_bits 0x3fc8000000000000) = true /\ magn_b w_stall_iv (of_bits 0x3fc8000000000000) = true /\
+   (let r := fsolve_first 50 1000 [] w_stall_store in
+    map (map (fun b => match b with VlF x => to_bits x | VlI z => z end)) (fs_sols r) = [[0%Z]] /\ fs_stop r = StopMore)).
+Proof. split. exact bisect_stall_prefix_ok. exact bisect_repaired_ok. Qed.
+Print Assumptions bisect_stall_prefix_refuted.
+
+(* Strict comparison of an INTEGER variable with a FLOAT variable (props.less_than / greater_than).  BEFORE the repair
+   (prune_flt_prefix: x.next() <= y with the integer successor) x1 = 5 < x0 with x0 in [-0.5, 5.5] failed although x0 = 5.25
+   satisfies it with a margin of 2.5e7 steps; AFTER the repair (LessThan: x <= y.prev() for an integer view below a float
+   variable) the same store is tightened to x0 in [5 + 1e-8, 5.5]. *)
+Theorem mixed_strict_prefix_refuted :
+  prune_flt_prefix (FVar 1) (FVar 0) (w_mix_store, []) = None /\
+  obs_ctx (prune_flt (FVar 1) (FVar 0) (w_mix_store, [])) =
+    Some ([[1; 0x4014000000abcc77; 0x4016000000000000; 0x3e45798ee2308c3a]%Z; [0; 5]%Z], [0%nat]).
+Proof. exact mixed_strict_ok. Qed.
+Print Assumptions mixed_strict_prefix_refuted.
+
+(* IntLinLe posted DIRECTLY on a float variable (props level) uses the integer rules: IntLinLe([-1],[x],-3), i.e. the integer
+   reading of x > 2, fails x in [0, 2.5].  The runtime API no longer produces this propagator for float variables (repair
+   "linear constraints with integer literals over float variables are posted as float linear constraints": x.gt(2) becomes
+   FloatLinLe(-x <= -2 - step)); see C06.float_lowering_covers. *)
+Theorem intlin_on_float_var_refuted :
   wf_b w_gt_iv = true /\ prune_ilin_le_mixed [-1]%Z [0%nat] (-3)%Z ([VF w_gt_iv], []) = None.
 Proof. exact strict_int_literal_refuted_ok. Qed.
-Print Assumptions strict_int_literal_refuted.
+Print Assumptions intlin_on_float_var_refuted.
 
 (* non-vacuity: [-2.5, 10.5] step 1e-6, v = pi lies inside Magn and both tightenings succeed and really move the bound
    (to 3.141593 / 3.141592), so e.g. w = 0 survives try_set_max(pi) and w = 5 survives try_set_min(pi) by the theorem above *)
